@@ -72,6 +72,12 @@ impl Db {
                 Ok(match (best, best_text) { (Some((_, sv)), _) => sv, (None, Some(s)) => SV::Text(s), _ => SV::Null })
             }).unwrap();
         }
+        // CONCAT (SQLite gets it in 3.44): PostgreSQL semantics, NULL arguments are ignored
+        conn.create_scalar_function("concat", -1, det, |ctx| {
+            let mut s = String::new();
+            for i in 0..ctx.len() { match ctx.get_raw(i) { ValueRef::Null => {}, ValueRef::Text(t) => s.push_str(&String::from_utf8_lossy(t)), ValueRef::Integer(i) => s.push_str(&i.to_string()), ValueRef::Real(f) => s.push_str(&f.to_string()), ValueRef::Blob(_) => {} } }
+            Ok(SV::Text(s))
+        }).unwrap();
         conn.create_aggregate_function("first", 1, FunctionFlags::SQLITE_UTF8, FirstAgg).unwrap();
         conn.create_aggregate_function("last", 1, FunctionFlags::SQLITE_UTF8, LastAgg).unwrap();
         conn.create_aggregate_function("mean", 1, FunctionFlags::SQLITE_UTF8, MomentAgg(0)).unwrap();
